@@ -26,6 +26,7 @@ var interposed = map[string][2]string{
 	"sync":        {simPath + "/shim/sync", "sync"},
 	"sync/atomic": {simPath + "/shim/atomic", "atomic"},
 	"os":          {simPath + "/shim/os", "os"},
+	"time":        {simPath + "/shim/time", "time"},
 }
 
 type prepInfo struct {
@@ -82,7 +83,7 @@ func copyTree(src, dst string, keepTests bool) (int, error) {
 	return n, err
 }
 
-// rewriteImports redirects sync, sync/atomic and os to the shims in every
+// rewriteImports redirects sync, sync/atomic, os and time to the shims in every
 // library file below dir and reports constructs the baton cannot see.
 func rewriteImports(dir string) (rewritten, warnings []string, err error) {
 	err = filepath.WalkDir(dir, func(p string, d fs.DirEntry, err error) error {
